@@ -78,6 +78,16 @@ class ActionGroup(Action):
         super().__init__(tracks)
         self.actions = actions
 
+    def _rollback(self) -> None:
+        """Undo the sub-actions applied so far, in reverse order, and forget them.
+
+        Used when a later step of a composite action is refused, so that a refused
+        action leaves the tracks as they were before the call.
+        """
+        for action in self.actions[::-1]:
+            action.inverse()
+        self.actions = []
+
     @override
     def inverse(self) -> ActionGroup:
         actions = [action.inverse() for action in self.actions[::-1]]
